@@ -1,5 +1,4 @@
-CONSTANTS Hosts <- H4  Weights <- WCh  StratSet <- SCh  WtSet <- BoolBoth  RefreshLists <- Lists1x  Codes <- C1
-CONSTANT CycleOf <- MCCycleOf
+CONSTANTS Hosts <- H2  Weights <- W12  StratSet <- SRR  WtSet <- OnlyTrue  RefreshLists <- Lists1x  Codes <- C1
 SPECIFICATION Spec
 INVARIANTS TypeOK SelectsMember ErrorIffNoneEligible NoneEligibleMeans Rotation WeightedCycle CycleCoversAll
 CHECK_DEADLOCK FALSE
